@@ -519,7 +519,9 @@ def _coll_oracle(interp, env, f, args, t, bb, path):
         if k == "alloc::vec::Vec::extend_from_slice":
             src = load(interp, env, args[1])
             if isinstance(src, Agg) and src.kind in ("slice", "array"):
-                view_set(interp, v0, items + [load1(interp, env, x) if isinstance(x, (HRef, Ref)) else x for x in src.fields])
+                # a modelled sub-slice holds its elements BY REFERENCE (places of the underlying vector): they are copied out;
+                # an array literal holds its elements themselves (which may be references: `&[individual, best]`)
+                view_set(interp, v0, items + [load1(interp, env, x) if (src.kind == "slice" and isinstance(x, (HRef, Ref))) else x for x in src.fields])
                 return unit
             if isinstance(src, Vec):
                 view_set(interp, v0, items + list(view_get(interp, src)))
